@@ -6,8 +6,11 @@
  * behaviour file (one behaviour = one description):
  *   reset
  *   d <json>                  abstract description emitted by the model, echoed verbatim into the next "set" event
- *   set x<hex>                hwloc_topology_init + hwloc_topology_set_synthetic(text); the text sits in an exactly-sized
- *                             heap block that is freed right after the call
+ *   filter <type> <kind>      hwloc_topology_set_type_filter(type, kind) on the topology (initialised by the first "filter"
+ *                             or "set" line), before or after "set"; the accepted calls are repeated on the second topology
+ *                             of every reload
+ *   set x<hex>                hwloc_topology_init (unless a filter line did it) + hwloc_topology_set_synthetic(text); the text
+ *                             sits in an exactly-sized heap block that is freed right after the call
  *   load <full>               hwloc_topology_load (only when set returned 0); logs the full projection (project.h,
  *                             when full=1) and the summary below
  *   perturb cpu|node <os>     hwloc_topology_restrict to the current cpuset minus one PU / nodeset minus one node
@@ -35,7 +38,9 @@
 #define BIGCAP 65536
 #define MAXTEXT 16384
 
-static hwloc_topology_t topo; static int set_ok, loaded;
+static hwloc_topology_t topo; static int set_ok, loaded, was_set;
+#define MAXFLT 16
+static int flt_type[MAXFLT], flt_kind[MAXFLT], nflt;
 static char *pending_d;
 
 static int os_of(hwloc_obj_t o) { return o->os_index == HWLOC_UNKNOWN_INDEX ? -1 : (int)(o->os_index & 0x7fffffff); }
@@ -123,18 +128,21 @@ static void do_export(char *p) {
   }
   /* reload every distinct exported text */
   for (k = 0; reload && k < nfl; k++) {
-    hwloc_topology_t t2 = NULL; int r1 = -1, e1 = 0, r2 = -1, e2 = 0; char *copy; size_t n;
+    hwloc_topology_t t2 = NULL; int r1 = -1, e1 = 0, r2 = -1, e2 = 0; char *copy; size_t n; int flt_ret[MAXFLT];
     if (!full[k]) continue;
     for (j = 0; j < k; j++) if (full[j] && !strcmp(full[j], full[k])) break;
     if (j < k) continue;
     n = strlen(full[k]); copy = malloc(n + 1); memcpy(copy, full[k], n + 1);
     hwloc_topology_init(&t2);
+    { int x; for (x = 0; x < nflt; x++) flt_ret[x] = hwloc_topology_set_type_filter(t2, (hwloc_obj_type_t)flt_type[x], (enum hwloc_type_filter_e)flt_kind[x]); }
     errno = 0; r1 = hwloc_topology_set_synthetic(t2, copy); e1 = errno;
     free(copy);
     if (!r1) { errno = 0; r2 = hwloc_topology_load(t2); e2 = errno; }
     out("{\"e\":\"reload\",\"text\":"); out_jstr(full[k]); out(",\"flags\":[");
     { int c = 0; for (j = k; j < nfl; j++) if (full[j] && !strcmp(full[j], full[k])) out("%s%lu", c++ ? "," : "", fl[j]); }
-    out("],\"set\":%d,\"seterr\":\"%s\",\"load\":%d,\"loaderr\":\"%s\",\"sum\":", r1, errname(e1), r2, errname(e2));
+    out("],\"set\":%d,\"seterr\":\"%s\",\"load\":%d,\"loaderr\":\"%s\",\"flt\":[", r1, errname(e1), r2, errname(e2));
+    { int x; for (x = 0; x < nflt; x++) out("%s[%d,%d,%d]", x ? "," : "", flt_type[x], flt_kind[x], flt_ret[x]); }
+    out("],\"sum\":");
     if (!r1 && !r2) out_summary(t2); else out("{\"depth\":0}");
     out(",\"re\":[");
     if (!r1 && !r2) {
@@ -159,7 +167,7 @@ static void handler(char **lines, size_t n, int beh) {
     if (!cmd) continue;
     if (!strcmp(cmd, "reset")) {
       if (topo) hwloc_topology_destroy(topo);
-      topo = NULL; set_ok = loaded = 0; free(pending_d); pending_d = NULL;
+      topo = NULL; set_ok = loaded = was_set = nflt = 0; free(pending_d); pending_d = NULL;
       unsetenv("HWLOC_SYNTHETIC"); unsetenv("HWLOC_XMLFILE"); unsetenv("HWLOC_COMPONENTS"); unsetenv("HWLOC_SYNTHETIC_VERBOSE"); unsetenv("HWLOC_THISSYSTEM");
       out("{\"e\":\"Reset\",\"beh\":%d}", beh); out_end();
     } else if (!strcmp(cmd, "d")) {
@@ -167,8 +175,9 @@ static void handler(char **lines, size_t n, int beh) {
       free(pending_d); pending_d = strdup(p);
     } else if (!strcmp(cmd, "set")) {
       char *hex = hwv_tok(&p), *text = NULL; size_t len = 0; int ret, err;
-      if (topo || !hex || hex[0] != 'x' || unhex(hex + 1, &text, &len) < 0) continue;
-      hwloc_topology_init(&topo);
+      if (was_set || !hex || hex[0] != 'x' || unhex(hex + 1, &text, &len) < 0) continue;
+      if (!topo) hwloc_topology_init(&topo);
+      was_set = 1;
       errno = 0;
       ret = hwloc_topology_set_synthetic(topo, text); err = errno;
       out("{\"e\":\"set\",\"model\":%d,\"d\":%s,\"len\":%zu,\"text\":", pending_d ? 1 : 0, pending_d ? pending_d : "0", len);
@@ -176,6 +185,14 @@ static void handler(char **lines, size_t n, int beh) {
       out(",\"ret\":%d,\"errno\":\"%s\"}", ret, errname(err)); out_end();
       free(text);                              /* the library must not keep pointers into the caller's string */
       set_ok = !ret;
+    } else if (!strcmp(cmd, "filter")) {
+      int type = (int)hwv_tokl(&p), kind = (int)hwv_tokl(&p), ret, err;
+      if (loaded || (was_set && !set_ok)) continue;
+      if (!topo) hwloc_topology_init(&topo);
+      errno = 0;
+      ret = hwloc_topology_set_type_filter(topo, (hwloc_obj_type_t)type, (enum hwloc_type_filter_e)kind); err = errno;
+      out("{\"e\":\"filter\",\"type\":%d,\"kind\":%d,\"ret\":%d,\"errno\":\"%s\"}", type, kind, ret, errname(err)); out_end();
+      if (!ret && nflt < MAXFLT) { flt_type[nflt] = type; flt_kind[nflt] = kind; nflt++; }
     } else if (!strcmp(cmd, "load")) {
       int fullp = (int)hwv_tokl(&p), ret, err;
       if (!topo || !set_ok || loaded) continue;
@@ -206,7 +223,7 @@ static void handler(char **lines, size_t n, int beh) {
       do_export(p);
     } else if (!strcmp(cmd, "end")) {
       if (topo) hwloc_topology_destroy(topo);
-      topo = NULL; set_ok = loaded = 0;
+      topo = NULL; set_ok = loaded = was_set = nflt = 0;
       out("{\"e\":\"end\"}"); out_end();
     }
   }
